@@ -145,6 +145,7 @@ type dgram struct {
 	facts   string
 	pathOK  bool
 	tsOpt   int64 // SCION: receive time supplied in an E2E timestamp option (0: none)
+	tsUse   bool  // ... and it lies inside the exchange, so the client is expected to use it
 }
 
 type peer struct {
@@ -584,8 +585,9 @@ func recordIP(c *lib.Ctx, tag string, cfg exchCfg, res exchResult) int {
 			t[3] = dec64(res.prev0.CRxTime, res.now0)
 		} else {
 			t[1], t[2], t[3] = dec64(rx, res.now0), dec64(tx, res.now0), cRx
-			if d.tsOpt != 0 && cRx != d.tsOpt {
-				c.Fail("C03:scion-ts-option", "the returned timestamp is not the packet's timestamp option", []string{opReq}, nil)
+			if d.tsOpt != 0 && (cRx == d.tsOpt) != d.tsUse {
+				c.Fail("C08:client-scion:tsopt-use", "the packet's timestamp option is used although its time lies outside the exchange, or not used although it lies inside",
+					[]string{opReq}, map[string]any{"tsopt": d.tsOpt, "returned": cRx, "expect_used": d.tsUse})
 			}
 		}
 		// cTxTime1: exact from the filter; from prev (1 ns ambiguity) with interleaved mode; else solved within its bracket
@@ -669,6 +671,9 @@ func recordIP(c *lib.Ctx, tag string, cfg exchCfg, res exchResult) int {
 			}
 		}
 	}
+	if !accepted {
+		ctx1 = res.now0 // the kernel transmit time is not observable then; it is not before cTxTime0
+	}
 	filt := "-"
 	if cfg.filter {
 		filt = "424242"
@@ -677,9 +682,13 @@ func recordIP(c *lib.Ctx, tag string, cfg exchCfg, res exchResult) int {
 	if accepted {
 		cRxAll = res.ts.UnixNano()
 	}
-	if accepted && idx >= 0 && res.sent[idx].tsOpt != 0 {
-		// the kernel receive time is unobservable when the option overrides it: any value serves
-		cRxAll = res.sent[idx].tsOpt - 1000
+	if accepted && idx >= 0 && res.sent[idx].tsOpt != 0 && res.ts.UnixNano() == res.sent[idx].tsOpt {
+		// the kernel receive time is unobservable when the option overrides it; it is not
+		// before the option's time then, and any such value gives the same answer
+		cRxAll = res.sent[idx].tsOpt + 1000
+	}
+	if !accepted {
+		cRxAll = wallNow().UnixNano() // kernel receive times of unaccepted datagrams: some time inside the call
 	}
 	op := fmt.Sprintf("cli.exch tr=%s il=%s dl=%s filt=%s %s ref=same prev=%s now=%d ctx1=%d ev=%s",
 		res.tr, ilS, dlS, filt, res.hdr, prevStr(res.prev0, reference), res.now0, ctx1,
@@ -709,6 +718,17 @@ func recordIP(c *lib.Ctx, tag string, cfg exchCfg, res exchResult) int {
 		}
 	}
 	c.Emit(op, ans)
+	// direct oracle (C08): no datagram may terminate the client (panics provoked through the
+	// prev hook are not network input)
+	if res.panicked != "" && cfg.setPrev == nil {
+		sig := "C08:client:panic-on-datagram"
+		for _, d := range res.sent {
+			if d.tsOpt != 0 {
+				sig = "C08:client-scion:tsopt-early-time"
+			}
+		}
+		c.Fail(sig, "a datagram sent in response to the client's request makes the client panic: "+res.panicked, []string{opReq, op}, nil)
+	}
 	// direct oracle (C05): an error or panic never comes with an offset
 	if !accepted && (res.off != 0 || !res.ts.IsZero()) {
 		c.Fail("C05:offset-with-error", "an error was returned together with a timestamp/offset", []string{op}, nil)
